@@ -332,7 +332,64 @@ def units(tier, seed):
     us.append({k: v for k, v in c03.sbt_cfg({}).items() if k != 'flags'})
     us.append({k: v for k, v in c03.sbt_cfg({}, K=2).items() if k != 'flags'})
     us += [{'harness': 'payback-display', 'kind': k, 'L': L, 'T': T, 'K': K, 'variant': x} for (k, L, T, K, x) in shown]
+    us.append({'harness': 'rate-sync'})
+    # with direct air capture switched on, the capture's own consumption is deducted from the energy the project sells: the cash flow is
+    # built from the energy series the run reports
+    us.append(cfg_of('electricity', 2, 1, False, extra={'Do S-DAC-GT Calculations': True}))
+    if tier == 'thorough':
+        us.append(cfg_of('direct-use', 2, 2, False, extra={'Do S-DAC-GT Calculations': True}))
+        us.append(cfg_of('cogen-topping', 3, 1, False, extra={'Do S-DAC-GT Calculations': True}))
     return us
+
+
+def run_rate_sync(unit):
+    """the stated rate reaches the NPV: 'Discount Rate' (a fraction) and 'Fixed Internal Rate' (percent) are documented synonyms that
+    Economics.sync_interest_rate reconciles after reading; the NPV code discounts at FixedInternalRate.  Real sync_interest_rate (pint
+    conversions included) on symbolic values, which of the two names was given symbolic."""
+    cfg = {'harness': 'rate-sync'}
+    log = harness.UnitLog(cfg)
+    names = ['discount rate (fraction)', 'fixed internal rate (percent)']
+    zv = {n: z3.Real(n) for n in names}
+    zv.update({'discount rate given': z3.Bool('discount rate given'), 'fixed internal rate given': z3.Bool('fixed internal rate given')})
+
+    def run(dr, fir, pd_, pf):
+        m = prepared(cfg_of('electricity', 2, 1, False)).reset()
+        e = m.economics
+        e.discountrate.value, e.FixedInternalRate.value = dr, fir
+        e.discountrate.Provided, e.FixedInternalRate.Provided = pd_, pf
+        e.sync_interest_rate(m)
+        out = []
+        D, F, I = e.discountrate.value, e.FixedInternalRate.value, e.interest_rate.value
+        if pd_ and not pf:
+            out.append(('only a discount rate is given: the NPV rate (percent) is that rate', core.near(F, dr * 100.0, 1e-12)))
+            out.append(('only a discount rate is given: it is kept as stated', core.near(D, dr, 1e-12)))
+        elif pf and not pd_:
+            out.append(('only a fixed internal rate is given: it is kept as stated (the NPV discounts at it)', core.near(F, fir, 1e-12)))
+            out.append(('only a fixed internal rate is given: the discount rate (fraction) follows it', core.near(D, fir / 100.0, 1e-12)))
+        else:
+            out.append(('both or neither given: the fixed internal rate is left as it is', core.near(F, fir, 1e-12)))
+            out.append(('both or neither given: the discount rate is left as it is', core.near(D, dr, 1e-12)))
+        out.append(('the reported interest rate (percent) is the discount rate in force', core.near(I, D * 100.0, 1e-12)))
+        return out
+
+    def concrete(inp, only=None):
+        obs = run(float(inp.get(names[0], 0.07)), float(inp.get(names[1], 6.25)), bool(inp.get('discount rate given', False)), bool(inp.get('fixed internal rate given', False)))
+        bad = [n for n, ok in obs if not ok and (only is None or n == only)]
+        return bool(bad), {'failed': bad}
+
+    def fn():
+        dr, fir = core.sym(names[0], 0, 1), core.sym(names[1], 0, 100)
+        return run(dr, fir, bool(core.symbool('discount rate given')), bool(core.symbool('fixed internal rate given')))
+    for pr in core.explore(fn, max_paths=64):
+        log.path(pr)
+        if pr.error is not None:
+            raise pr.error
+        if pr.aborted:
+            continue
+        harness.reachable(log, pr.ctx, 1000)
+        for name, cond in pr.value:
+            harness.discharge(log, pr.ctx, name, cond, zv, lambda inp, name=name: concrete(inp, name), timeout_ms=10000, sample=True)
+    yield log.result()
 
 
 def example_inputs(cfg):
@@ -368,6 +425,9 @@ def run_unit(unit):
     if unit.get('harness') == 'payback-display':
         from . import c09
         yield from c09.run_payback_display(unit)
+        return
+    if unit.get('harness') == 'rate-sync':
+        yield from run_rate_sync(unit)
         return
     cfg = {k: v for k, v in unit.items() if k != 'tier'}
     tmo = 20000 if unit['tier'] == 'quick' else 60000
